@@ -219,11 +219,13 @@ def precise_diff(
                 offset1 = d1.utcoffset()
                 offset2 = d2.utcoffset()
 
+                # The shift is done on naive values: subtracting from an aware
+                # pendulum.DateTime would follow the timezone's own transitions
                 if offset1:
-                    d1 = d1 - offset1
+                    d1 = d1.replace(tzinfo=None) - offset1
 
                 if offset2:
-                    d2 = d2 - offset2
+                    d2 = d2.replace(tzinfo=None) - offset2
 
             hour_diff = d2.hour - d1.hour
             min_diff = d2.minute - d1.minute
